@@ -73,6 +73,12 @@ ConvertReasons(e) ==
         \cup (IF ~SameTextInOrder(sb, sa) THEN {<<"text-or-order-changed">>} ELSE {})
         \cup (IF Kind(e) = "refactor.rewrite.list.type" /\ ~OnlyListKindsDiffer(sb, sa) THEN {<<"more-than-list-kind-changed">>} ELSE {})
 
+\* "everything else unchanged": a note that is still there keeps its front matter, a created note has none
+MetaReasons(e) ==
+    {<<"front-matter-changed", v.key>> : v \in {b \in Range(Before(e)) : b.key \notin Deleted(e)
+                                                   /\ \E a \in Range(After(e)) : a.key = b.key /\ a.meta # b.meta}}
+    \cup {<<"front-matter-invented", v.key>> : v \in {a \in Range(After(e)) : a.key \in Created(e) /\ a.meta # ""}}
+
 Reasons(e) ==
     IF e.res # "ok" THEN {<<"offered-action-failed", e.res>>}
     ELSE IF Before(e) = <<>> /\ After(e) = <<>> THEN {<<"empty-edit">>}
@@ -80,6 +86,7 @@ Reasons(e) ==
             [] Kind(e) \in {"refactor.inline.reference.section", "refactor.inline.reference.quote"} -> InlineReasons(e)
             [] Kind(e) \in {"refactor.rewrite.list.type", "refactor.rewrite.list.section", "refactor.rewrite.section.list"} -> ConvertReasons(e)
             [] OTHER -> {})
+         \cup MetaReasons(e)
          \* "changing a list's type twice restores the note"; "turning a section that is not adjacent to
          \* another list into a list and back restores the formatted original"; "extracting the first
          \* sub-section and inlining it again restores the formatted original"
